@@ -160,9 +160,8 @@ class Sequential(Module):
                 self.register_module(str(idx), module)
         
     def forward(self, x:Tensor) -> Tensor:
-        inp = x
+        out = x
         for module in self.submodules():
-            out = module(inp)
-            inp = out
+            out = module(out)
         return out
         
